@@ -474,17 +474,25 @@ func (in *inst) stepStmt(pos token.Pos, class string) ast.Stmt {
 	return in.rtCall("Step", intLit(in.site(pos)))
 }
 
-// refuseConcurrency fails closed on constructs the cooperative scheduler does not
-// model: channel operations, select, sync.Cond.  (go statements are rewritten: the goroutine
-// becomes a task of the simulated world, see rewriteGo; joins through WaitGroup/Mutex/Once are
-// simulated, joins through channels are not.)
-// An instrumented copy that ran them would have two real threads inside the
-// simulator's bookkeeping - nondeterministic, and a source of false alarms.
+// refuseConcurrency fails closed on what the cooperative scheduler does not model.  Since rules
+// R5-R7 (goroutines, channels, select, sync.Cond) that is only the clock: a library that sleeps or
+// waits for a timer would make results depend on real time, which the simulator does not own.
 func (in *inst) refuseConcurrency(f *ast.File) {
 	ast.Inspect(f, func(n ast.Node) bool {
-		if _, ok := n.(*ast.SelectStmt); ok {
-			p := in.fset.Position(n.Pos())
-			fatal("%s:%d: select statement in library code: the simulator models goroutines, WaitGroup/Mutex/Once and plain channel operations, not select (cannot instrument; this is not a verdict)", p.Filename, p.Line)
+		sel, ok := n.(*ast.SelectorExpr)
+		if !ok {
+			return true
+		}
+		id, ok := sel.X.(*ast.Ident)
+		if !ok {
+			return true
+		}
+		if pn, ok := in.info.Uses[id].(*types.PkgName); ok && pn.Imported().Path() == "time" {
+			switch sel.Sel.Name {
+			case "Sleep", "After", "AfterFunc", "NewTimer", "NewTicker", "Tick":
+				p := in.fset.Position(n.Pos())
+				fatal("%s:%d: time.%s in library code: the simulator has no clock seam for this library (cannot instrument; this is not a verdict)", p.Filename, p.Line, sel.Sel.Name)
+			}
 		}
 		return true
 	})
@@ -508,6 +516,7 @@ func (in *inst) rt(fn string, args ...ast.Expr) *ast.CallExpr {
 // (simrt.Send / Recv / Recv2 / Close / Len), which keeps each channel's queue in a side table and
 // turns blocking into handing over the baton.  `for v := range ch` becomes a loop around Recv2.
 func (in *inst) rewriteChannels(f *ast.File) {
+	in.rewriteSelects(f)
 	// comma-ok receives first (they are statements), then every remaining receive expression
 	ast.Inspect(f, func(n ast.Node) bool {
 		switch x := n.(type) {
@@ -549,7 +558,7 @@ func (in *inst) rewriteChannels(f *ast.File) {
 	replaceStmts(f, func(s ast.Stmt) ast.Stmt {
 		switch x := s.(type) {
 		case *ast.SendStmt:
-			return &ast.ExprStmt{X: in.rt("Send", x.Chan, x.Value)}
+			return &ast.ExprStmt{X: &ast.CallExpr{Fun: &ast.SelectorExpr{X: in.rt("SendTo", x.Chan), Sel: ast.NewIdent("V")}, Args: []ast.Expr{x.Value}}}
 		case *ast.RangeStmt:
 			if !in.isChan(x.X) {
 				return s
@@ -572,6 +581,110 @@ func (in *inst) rewriteChannels(f *ast.File) {
 			return &ast.BlockStmt{List: []ast.Stmt{&ast.AssignStmt{Lhs: []ast.Expr{id(cName)}, Tok: token.DEFINE, Rhs: []ast.Expr{x.X}}, loop}}
 		}
 		return s
+	})
+}
+
+// rewriteSelects is rule R7: a select statement becomes a switch over simrt.Select, which decides
+// and performs the chosen communication in one step of the simulated world:
+//
+//	{ zzsc1 := a; zzsc2 := b
+//	  switch zzsel := simrt.Select(hasDefault, simrt.SelRecv(zzsc1), simrt.SelSendTo(zzsc2).V(x)); zzsel.I {
+//	  case 0: v := simrt.SelGet(zzsc1, zzsel); ...
+//	  case 1: ...
+//	  default: ...
+//	  } }
+//
+// Channel expressions are evaluated once, in source order, before the send values (the statement
+// interleaves them; the difference shows only if both have side effects).  `break` keeps its
+// meaning (it leaves the switch); a label of the select moves to the switch.
+func (in *inst) rewriteSelects(f *ast.File) {
+	generated := map[*ast.BlockStmt]bool{}
+	id := ast.NewIdent
+	replaceStmts(f, func(s ast.Stmt) ast.Stmt {
+		if ls, ok := s.(*ast.LabeledStmt); ok {
+			if b, ok := ls.Stmt.(*ast.BlockStmt); ok && generated[b] {
+				last := len(b.List) - 1
+				b.List[last] = &ast.LabeledStmt{Label: ls.Label, Stmt: b.List[last]}
+				return b
+			}
+			return s
+		}
+		x, ok := s.(*ast.SelectStmt)
+		if !ok {
+			return s
+		}
+		in.tmp++
+		selName := fmt.Sprintf("zzsel%d", in.tmp)
+		var pre []ast.Stmt
+		var args []ast.Expr
+		var clauses []ast.Stmt
+		hasDefault := "false"
+		idx := 0
+		recvOf := func(e ast.Expr) (ast.Expr, bool) {
+			for {
+				p, ok := e.(*ast.ParenExpr)
+				if !ok {
+					break
+				}
+				e = p.X
+			}
+			u, ok := e.(*ast.UnaryExpr)
+			if !ok || u.Op != token.ARROW {
+				return nil, false
+			}
+			return u.X, true
+		}
+		chanTemp := func(ch ast.Expr) ast.Expr {
+			name := fmt.Sprintf("zzsc%d_%d", in.tmp, idx)
+			pre = append(pre, &ast.AssignStmt{Lhs: []ast.Expr{id(name)}, Tok: token.DEFINE, Rhs: []ast.Expr{ch}})
+			return id(name)
+		}
+		for _, c := range x.Body.List {
+			cc := c.(*ast.CommClause)
+			if cc.Comm == nil {
+				hasDefault = "true"
+				clauses = append(clauses, &ast.CaseClause{Body: cc.Body})
+				continue
+			}
+			body := cc.Body
+			switch comm := cc.Comm.(type) {
+			case *ast.SendStmt:
+				t := chanTemp(comm.Chan)
+				args = append(args, &ast.CallExpr{Fun: &ast.SelectorExpr{X: in.rt("SelSendTo", t), Sel: id("V")}, Args: []ast.Expr{comm.Value}})
+			case *ast.ExprStmt:
+				ch, ok := recvOf(comm.X)
+				if !ok {
+					p := in.fset.Position(comm.Pos())
+					fatal("%s:%d: unexpected communication clause (cannot instrument; this is not a verdict)", p.Filename, p.Line)
+				}
+				args = append(args, in.rt("SelRecv", chanTemp(ch)))
+			case *ast.AssignStmt:
+				ch, ok := recvOf(comm.Rhs[0])
+				if !ok {
+					p := in.fset.Position(comm.Pos())
+					fatal("%s:%d: unexpected communication clause (cannot instrument; this is not a verdict)", p.Filename, p.Line)
+				}
+				t := chanTemp(ch)
+				args = append(args, in.rt("SelRecv", t))
+				get := "SelGet"
+				if len(comm.Lhs) == 2 {
+					get = "SelGet2"
+				}
+				first := &ast.AssignStmt{Lhs: comm.Lhs, Tok: comm.Tok, Rhs: []ast.Expr{in.rt(get, t, id(selName))}}
+				body = append([]ast.Stmt{first}, body...)
+			}
+			clauses = append(clauses, &ast.CaseClause{List: []ast.Expr{&ast.BasicLit{Kind: token.INT, Value: fmt.Sprint(idx)}}, Body: body})
+			idx++
+		}
+		call := in.rt("Select", append([]ast.Expr{id(hasDefault)}, args...)...)
+		sw := &ast.SwitchStmt{
+			Init: &ast.AssignStmt{Lhs: []ast.Expr{id(selName)}, Tok: token.DEFINE, Rhs: []ast.Expr{call}},
+			Tag:  &ast.SelectorExpr{X: id(selName), Sel: id("I")},
+			Body: &ast.BlockStmt{List: clauses},
+		}
+		b := &ast.BlockStmt{List: append(pre, sw)}
+		generated[b] = true
+		return b
 	})
 }
 
@@ -656,7 +769,7 @@ func (in *inst) rewriteFile(f *ast.File) {
 			return true
 		}
 		switch sel.Sel.Name {
-		case "Pool", "WaitGroup", "Mutex", "RWMutex", "Once":
+		case "Pool", "WaitGroup", "Mutex", "RWMutex", "Once", "Cond", "NewCond":
 			id.Name = rtAlias
 			in.usedRT = true
 		default:
